@@ -439,4 +439,6 @@ def replay(obj):
         bad = bad or (cls == 'ok' and pl is not None and not strict_kexinit_ok(pl))
         return 1 if bad else 0
     print(json.dumps(f, indent=1)[:1500])
-    return 0
+    import sys
+    from common import rerun_for_signature
+    return rerun_for_signature(sys.modules[__name__], f)
